@@ -344,8 +344,8 @@ def run_hier(acc, case, uid):
         prev = type("Prev", (SM,), {"zz_prev": decs["state"](_fn("zz_prev", "self", "old doc"), first=True)})()
         prev.logger = m.logger
         setup_tunables(prev, uid)
-        for e in prev._tunables.values():
-            e.close()
+        # (the earlier object is still alive and still publishing - a topic nobody publishes loses its value anyway)
+        prev_entries = list(prev._tunables.values())
         acc.ev("machine-bound-under-a-used-name")
     setup_tunables(m, uid)
     inst = ntcore.NetworkTableInstance.getDefault()
@@ -363,6 +363,8 @@ def run_hier(acc, case, uid):
         nt_names.close()
         nt_desc.close()
         for e in m._tunables.values():
+            e.close()
+        for e in locals().get("prev_entries", ()):
             e.close()
     if sorted(names) != sorted(states) or len(set(names)) != len(names):
         acc.violation("C12/state_names-set", f"state_names {names!r} but the machine's states are {sorted(states)!r}", case, {})
